@@ -10,6 +10,10 @@
 //
 // Verdict: a panic anywhere is a violation; so is acceptance of a document the specification marks not WellFormed.
 // Everything else (which error, decode error versus rejection) is only counted.
+//
+// The tree is an ordered one with repeatable keys rather than map[string]any / []any: "duplicate a member" is one of
+// the mutations. keyshare.go has no entry point that takes an untrusted ProofD / ProofU (KeyshareResponse consumes
+// commitments and a response, MergeProofP works on the client's own proofs), so nothing of it is driven here.
 package main
 
 import (
@@ -19,7 +23,6 @@ import (
 	gobig "math/big"
 	mrand "math/rand"
 	"os"
-	"sort"
 	"strconv"
 	"strings"
 
@@ -312,7 +315,7 @@ func newCredential(kp hx.KeyPair, secret *big.Int, rng *mrand.Rand) *gabi.Creden
 
 func rangeStatements() map[int][]*rangeproof.Statement {
 	return map[int][]*rangeproof.Statement{1: {
-		{Sign: 1, Factor: 1, Bound: big.NewInt(937)},                     // four squares
+		{Sign: 1, Factor: 1, Bound: big.NewInt(937)},                      // four squares
 		{Sign: -1, Factor: 1, Bound: big.NewInt(1063), Splitter: squares}, // three squares
 	}}
 }
@@ -430,7 +433,6 @@ func buildTemplates(rng *mrand.Rand) []*template {
 	}
 	return out
 }
-
 
 // ---------------------------------------------------------------- abstraction of the real templates
 
@@ -1000,7 +1002,9 @@ func replayCase(c acase, raw json.RawMessage, t *template, alt map[*gabikeys.Pub
 	}
 	if n > 0 && n == len(keys) {
 		variant("ProofList.Verify with too few keys", func(f gabi.ProofList) bool { return f.Verify(keys[:n-1], t.context, t.nonce, false, nil) }, false)
-		variant("ProofList.Verify with too many keys", func(f gabi.ProofList) bool { return f.Verify(append(keys[:n:n], keys[0]), t.context, t.nonce, false, nil) }, false)
+		variant("ProofList.Verify with too many keys", func(f gabi.ProofList) bool {
+			return f.Verify(append(keys[:n:n], keys[0]), t.context, t.nonce, false, nil)
+		}, false)
 		variant("ProofList.Verify with a nil key", func(f gabi.ProofList) bool {
 			ks := append([]*gabikeys.PublicKey(nil), keys...)
 			ks[rng.Intn(n)] = nil
@@ -1053,6 +1057,3 @@ func describe(h []patch) string {
 	}
 	return strings.Join(s, "; ")
 }
-
-var _ = sort.Strings
-var _ revocation.Proof
